@@ -34,6 +34,17 @@ FORMS = {
     "join_var2": ("(exp_join_var 2)", [("KJoinVar", 2, "")]),
     "join_var3": ("(exp_join_var 3)", [("KJoinVar", 3, "")]),
     "pipeline": ("exp_pipeline", [("KJoinCC", 0, "fst"), ("KFmap", 0, "snd")]),
+    # instances over other element types (error, interface{}, *int): harness/internal/c19/round5.go
+    "fmap_e": ("exp_fmap", [("KFmap", 0, "")]),
+    "dup_e": ("exp_dup", [("KDup", 0, "")]),
+    "join_cc_e": ("exp_join_cc", [("KJoinCC", 0, "")]),
+    "join_cc_a": ("exp_join_cc", [("KJoinCC", 0, "")]),
+    "join_sl_e": ("exp_join_sl", [("KJoinSl", 0, "")]),
+    "join_sl_sa": ("exp_join_sl", [("KJoinSl", 0, "")]),
+    "join_sl_p": ("exp_join_sl", [("KJoinSl", 0, "")]),
+    "join_var2_e": ("(exp_join_var 2)", [("KJoinVar", 2, "")]),
+    "join_var3_p": ("(exp_join_var 3)", [("KJoinVar", 3, "")]),
+    "pipeline_e": ("exp_pipeline", [("KJoinCC", 0, "fst"), ("KFmap", 0, "snd")]),
 }
 
 WHY = {
@@ -169,7 +180,7 @@ def check(pid, tier, seed):
             rep.coverage.update({"obligations": 1, "discharged": 0, "checker_cmd": "make -C coq"})
             return rep.finish()
         checker = ("make -C /verif/coq && coqc -R /verif/coq/theories Verif /verif/coq/theories/Properties/%s.v  (Print Assumptions under every theorem)"
-                   "; per run: coqc C19Translated.v && `Goal tr_<form> = exp_<form>. vm_compute. reflexivity.` for the 11 generated forms" % pid)
+                   "; per run: coqc C19Translated.v && `Goal tr_<form> = exp_<form>. vm_compute. reflexivity.` for the 21 generated forms" % pid)
         if os.path.exists(os.path.join(COQ, "theories", "Properties", pid + ".v")):
             theorems, discharged, axioms, plog = vcheck.check_properties_file(pid, scratch)
             if axioms or len(discharged) != len(theorems):
